@@ -261,11 +261,67 @@ def _call_key(res, estimate_key, arr, prof, ctx):
     return name, pk
 
 
+def _ranked_query(res, estimate_key, rows, layout, prof, ctx):
+    """estimate_key(..., return_sorted_keys=True): the candidates from the best to the worst.  The
+    statement speaks of the estimated key only: every entry must be a valid key name and, where the
+    winner is defined, the first entry (the estimate) must be the reference winner."""
+    arr, _, dc = R.build_array(rows, layout)
+    res.transitions += 1
+    kw = {} if prof is None else {"key_profiles": prof}
+    ok, names = guarded(res, "key-total", estimate_key, arr, return_sorted_keys=True, **kw)
+    if not ok:
+        res.violations[-1]["detail"] = ctx
+        return None
+    res.states += 1
+    if isinstance(names, np.ndarray):
+        names = names.tolist()
+    if not isinstance(names, (list, tuple)) or len(names) == 0:
+        res.fail("key-valid-name", expected="non-empty sequence of key names, best first", observed=repr(names)[:200],
+                 where="estimate_key", detail=ctx)
+        return None
+    names = [str(x) if isinstance(x, np.str_) else x for x in names]
+    bad = [repr(x)[:40] for x in names if R.parse_key(x) is None]
+    if bad:
+        res.fail("key-valid-name", expected="every ranked entry one of the 30 key names", observed=bad[:6], where="estimate_key", detail=ctx)
+        return None
+    weights = [Fraction(float(x)) for x in arr[dc]]
+    best, gap, ranking = R.key_model([r[2] for r in rows], weights, R.profile_fractions(prof))
+    res.traces += 1
+    if best is not None and gap > (1e-4 if layout == "sec-odd" else GAP) and R.parse_key(names[0]) != best:
+        res.fail("key-best-profile-correlation", expected="first ranked key: tonic pc %d %s (r=%.6f, next %.6f)" % (best[0], best[1], ranking[0][0], ranking[1][0]),
+                 observed=names[:3], where="estimate_key", detail=ctx)
+    return names
+
+
+def _run_key_history(res, estimate_key, history, layout):
+    """Earlier key queries made in the same process (plain or ranked, any profile set) before the
+    probe of the case is evaluated: each must itself be valid; the clauses of the probe then show
+    whether a query left anything behind."""
+    done = []
+    for hrows, hprof, ranked in history:
+        ctx = "history query %d after %r: profiles=%r return_sorted_keys=%r layout=%s rows=%r" % (len(done) + 1, done, hprof, bool(ranked), layout, hrows)
+        if ranked:
+            _ranked_query(res, estimate_key, hrows, layout, hprof, ctx)
+        else:
+            arr, _, dc = R.build_array(hrows, layout)
+            got = _call_key(res, estimate_key, arr, hprof, ctx)
+            if got is not None:
+                best, gap, ranking = R.key_model([r[2] for r in hrows], [Fraction(float(x)) for x in arr[dc]], R.profile_fractions(hprof))
+                res.traces += 1
+                if best is not None and gap > (1e-4 if layout == "sec-odd" else GAP) and got[1] != best:
+                    res.fail("key-best-profile-correlation", expected="tonic pc %d %s" % best, observed=got[0], where="estimate_key", detail=ctx)
+        done.append("%s(%s)" % ("ranked" if ranked else "plain", hprof))
+    return done
+
+
 def eval_key(case):
     from partitura.musicanalysis import estimate_key
 
     rows, layout = case["rows"], case["layout"]
     res = CaseResult(states=0, transitions=0, traces=0)
+    hist = ""
+    if case.get("history"):
+        hist = " after queries %r" % (_run_key_history(res, estimate_key, case["history"], layout),)
     pitches = [r[2] for r in rows]
     lo, hi = min(pitches), max(pitches)
     defined = 0
@@ -274,7 +330,10 @@ def eval_key(case):
     winners = []
     for prof in profs + extra:
         arr, oc, dc = R.build_array(rows, layout)
-        ctx0 = "profiles=%r layout=%s rows=%r" % (prof, layout, rows)
+        ctx0 = "profiles=%r layout=%s rows=%r%s" % (prof, layout, rows, hist)
+        if case.get("ranked_probe") and prof in profs:
+            # the ranked form of the same query first, so that the plain queries below come after it
+            _ranked_query(res, estimate_key, rows, layout, prof, ctx0 + " return_sorted_keys=True")
         got = _call_key(res, estimate_key, arr, prof, ctx0)
         if got is None:
             continue
@@ -328,6 +387,9 @@ def eval_key(case):
                          detail="%s: estimated %s, then all pitches transposed by %d" % (ctx0, name, s))
     res.nontrivial = defined > 0
     res.outcome = "key defined=%d/%d %s" % (defined, len(profs) + len(extra), ",".join(sorted(set(winners)))[:40])
+    if case.get("history") is not None:
+        res.outcome = "key history=%d ranked=%d defined=%d/%d" % (
+            len(case["history"]), sum(1 for h in case["history"] if h[2]), defined, len(profs) + len(extra))
     return res
 
 
@@ -681,6 +743,49 @@ def gen_periodic(kind, lengths, shapes, motifs=MOTIFS, twice=False):
     return g
 
 
+LONG_SHAPES = ["seq", "chord", "same"]
+
+
+def long_families(quick):
+    """(family, motifs, lengths): passages of low pitch-class variety, long enough for the running
+    count of one pitch class to pass 127/128 (8-bit signed) and 255/256 (8-bit unsigned) inside the
+    K_pre/K_post context of some note.  Lengths are the numbers of rows."""
+    one = [255, 256, 257, 258, 266, 296, 297, 300, 400, 513, 600, 800] if quick else \
+        list(range(120, 140)) + list(range(250, 310)) + [400, 500] + list(range(505, 530)) + [600, 700, 800, 900]
+    two = [512, 513, 600] if quick else [256, 300, 511, 512, 513, 514, 552, 553, 600, 900]
+    four = [512, 520, 800] if quick else [511, 512, 513, 520, 552, 600, 800, 900]
+    fams = [
+        ("repeated note", [[p] for p in range(60, 72)] + [[21], [108]], one),
+        ("octave tremolo", [[p, p + 12] for p in range(48, 60)] + [[21, 105], [108, 24]], one),
+        ("tremolo", [[60 + a, 60 + a + iv] for a in range(12) for iv in range(1, 12)], two),
+        ("alberti", [[48 + r, 55 + r, 51 + r + maj, 55 + r] for r in range(12) for maj in (1, 0)], four),
+    ]
+    return fams
+
+
+def _long_rows(motif, shape, n):
+    m = len(motif)
+    if shape == "seq":
+        return [[i, 1, motif[i % m]] for i in range(n)]
+    if shape == "chord":  # the motif as a repeated chord (repeated note: pairs of simultaneous notes)
+        return [[i // max(m, 2), 1, motif[i % m]] for i in range(n)]
+    return [[0, 1, motif[i % m]] for i in range(n)]  # all simultaneous
+
+
+def gen_spell_long(quick):
+    """shape: every one of LONG_SHAPES (thorough) / cycled over the cases (quick)."""
+    def g():
+        i = 0
+        for fam, motifs, lengths in long_families(quick):
+            for motif in motifs:
+                for n in lengths:
+                    shapes = [LONG_SHAPES[i % 3]] if quick else LONG_SHAPES
+                    for shape in shapes:
+                        yield dict(k="spell", rows=_long_rows(motif, shape, n), layout=_cycle_layout(i), perms="two", family=fam)
+                    i += 1
+    return g
+
+
 def gen_voices_small(kmax, pitches, perms="all", kmin=1, quick_block=None, layouts=R.LAYOUTS):
     def g():
         i = 0
@@ -744,6 +849,45 @@ def gen_key_periodic(lengths):
                 yield dict(k="key", rows=rows, layout=_cycle_layout(i), transpositions=[2, 7], scales=[3],
                            profiles=[KEY_PROFILES[i % 3]])
                 i += 1
+    return g
+
+
+# probes and earlier inputs of the query histories: [pitch, duration] rows of tonally clear material
+KEY_PROBES = [
+    [[60, 2], [64, 1], [67, 1]],                                            # major triad
+    [[57, 2], [60, 1], [64, 1]],                                            # minor triad
+    [[62, 4], [64, 1], [66, 2], [67, 1], [69, 3], [71, 1], [73, 1]],        # major scale, weighted
+    [[57, 4], [59, 1], [60, 2], [62, 1], [64, 3], [65, 1], [68, 1]],        # harmonic minor scale, weighted
+    [[66, 1]],                                                              # one note
+    [[61, 2], [68, 1]],                                                     # fifth
+    [[58, 1], [62, 1], [65, 1], [68, 2]],                                   # dominant seventh chord
+    [[63, 3], [66, 1], [70, 2], [75, 0]],                                   # minor triad with a zero-length note
+]
+HIST_PROFILES = KEY_PROFILES + [None]
+
+
+def gen_key_history(depth, probes, quick_block=None):
+    """every history of 0..depth earlier queries over the alphabet {plain, ranked} x {3 profile sets,
+    default} (8 letters), followed by the full clause set on a probe input."""
+    def g():
+        letters = [(ranked, prof) for ranked in (False, True) for prof in HIST_PROFILES]
+        i = 0
+        for pi, probe in enumerate(probes):
+            rows = [[j, d, p] for j, (p, d) in enumerate(probe)]
+            for m in range(depth + 1):
+                for word in itertools.product(letters, repeat=m):
+                    history = []
+                    for j, (ranked, prof) in enumerate(word):
+                        # earlier inputs: the other probes in turn, transposed by 3, 6, ... semitones
+                        src = probes[(pi + 1 + j) % len(probes)]
+                        history.append([[[jj, d, p + 3 * (j + 1)] for jj, (p, d) in enumerate(src)], prof, ranked])
+                    case = dict(k="key", rows=rows, layout=_cycle_layout(i), history=history, ranked_probe=(i % 2 == 0),
+                                transpositions=[[1, 6, 11], [2, 5, 9], [3, 7, 10], [4, 8]][i % 4], scales=[[2], [0.5], [3]][i % 3],
+                                profiles=KEY_PROFILES)
+                    i += 1
+                    if quick_block is not None and m == depth and block_of(case, quick_block[0]) != quick_block[1]:
+                        continue
+                    yield case
     return g
 
 
@@ -900,6 +1044,12 @@ def spaces(tier, seed):
                     "first note (12 pitch classes) x dominant pitch class repeated 4 times (12) x probe note at every pitch 21..108, successive onsets; 5 fixed row orders"))
     sp.append(Space("spell-periodic", gen_periodic("spell", L120, ["seq", "chords3", "same", "grace"]), True,
                     "6 motifs of 2-3 pitches repeated to every length 1..120 and 150, 200, 300; 4 time shapes (successive, chords of 3, all simultaneous, with zero-length notes); 5 fixed row orders"))
+    sp.append(Space("spell-long", gen_spell_long(quick), True,
+                    "long passages of low pitch-class variety (one pitch class occurs 128..900 times): repeated note (12 pitch classes, 21, 108) and octave tremolo "
+                    "(12 + 2) at lengths 255-258, 266, 296, 297, 300, 400, 513, 600, 800 rows; tremolo of every ordered pair of distinct pitch classes (132) at 512, 513, 600 rows; "
+                    "major/minor Alberti figure on 12 roots at 512, 520, 800 rows (quick; thorough: every length 120..139, 250..309, 505..529 and 400-900 in hundreds for one "
+                    "pitch class, 10 / 8 lengths 256..900 for the others); time shape successive / motif as chords / all simultaneous cycled (thorough: all three); "
+                    "2 row orders (given, stride shuffle) and a second call"))
 
     if quick:
         sp.append(Space("voices-pairs", gen_voices_small(2, [0, 21, 60, 61, 66, 70, 108, 127]), True,
@@ -933,6 +1083,18 @@ def spaces(tier, seed):
     sp.append(Space("key-periodic", gen_key_periodic(list(range(1, 61)) + [120, 300] if quick else L120), True,
                     "8 motifs (incl. a major and a harmonic minor scale) repeated to every length; profile set cycled"))
 
+    if quick:
+        sp.append(Space("key-history", gen_key_history(2, KEY_PROBES, (2, seed % 2)), True,
+                        "query histories: every sequence of 0..2 earlier estimate_key calls over {plain, return_sorted_keys=True} x {3 profile sets, default} "
+                        "(2-call sequences: hash block seed%2 of 2) on transposed tonal inputs, then the full clause set (3 profile sets; reference winner, octave shifts, "
+                        "one duration factor, 2-3 transpositions, cycled) on each of 8 probe inputs (triads, weighted major / harmonic minor scale, one note, fifth, "
+                        "seventh chord, triad with a zero-length note); on every second case the probe is also queried ranked first; ranked answers: valid names, first = reference winner"))
+    else:
+        sp.append(Space("key-history", gen_key_history(3, KEY_PROBES[:4], (4, seed % 4)), True,
+                        "query histories: every sequence of 0..2 earlier estimate_key calls over {plain, return_sorted_keys=True} x {3 profile sets, default} and hash block "
+                        "seed%4 of 4 of the 512 3-call sequences, then the full clause set on each of 4 probe inputs; plus (key-history-probes) depth 0..2 on all 8 probes"))
+        sp.append(Space("key-history-probes", gen_key_history(2, KEY_PROBES), True,
+                        "every sequence of 0..2 earlier estimate_key calls over {plain, ranked} x {3 profile sets, default}, then the full clause set on each of 8 probe inputs"))
     base_plans = [("single", [0, 4]), ("two-ch", [0, 1, 5]), ("two-tr", [2, 3])]
     if quick:
         sp.append(Space("midi-small", gen_midi(1, 2, MIDI_PITCH, base_plans, (3, seed % 3), block_splits=("two-ch", "two-tr")), True,
